@@ -1,5 +1,5 @@
 From Coq Require Import String.
-From V Require Import Common.Base C14.Compat C14.Spec C14.LowerGraph C14.CompatProofs C14.TableProofs C14.Constructs.
+From V Require Import Common.Base C14.Compat C14.Spec C14.LowerGraph C14.CompatProofs C14.TableProofs C14.Constructs C14.Sites.
 (* non-vacuity / sanity: concrete values meeting the hypotheses of the theorems *)
 
 (* es_monotone: optional chaining is unsupported for ES2019 and supported for ES2020 *)
@@ -63,4 +63,28 @@ Example jsx_spread_es2017 :
   | Ok out => negb (existsb (feature_eqb FObjectRestSpread) out) && existsb (feature_eqb FArrow) out
   | Error => false
   end = true.
+Proof. vm_compute. repeat split; reflexivity. Qed.
+
+(* es_unsupported_iff_newer: optional chaining has a row, is not a deviation, is syntax *)
+Example iff_newer_hypotheses :
+  existsb (feature_eqb FOptionalChain) (map fst jsTable) = true
+  /\ existsb (feature_eqb FOptionalChain) es_year_deviations = false
+  /\ newer_than 2019 FOptionalChain = true /\ newer_than 2020 FOptionalChain = false.
+Proof. vm_compute. repeat split; reflexivity. Qed.
+
+(* lowering_closed / compile_leaks_exact without base_ok: the refuted corner really is reached *)
+Example leaks_exact_corner :
+  let U := fset_of [FClassField; FArraySpread; FHashbang] in
+  match compile U [FClassField; FHashbang] with
+  | Ok out => existsb (feature_eqb FArraySpread) out && existsb (feature_eqb FHashbang) out
+              && forallb (fun g => negb (U g) || feature_eqb g FArraySpread || feature_eqb g FHashbang) out
+  | Error => false
+  end = true.
+Proof. vm_compute. reflexivity. Qed.
+
+(* site inventory: non-trivial counts, and a rejected / a lowered / a warned feature *)
+Example site_counts :
+  has_count FArrow = 13 /\ mark_count FDestructuring = 6 /\ marked_via_markAsyncFn FAsyncAwait = true
+  /\ in_mark_cases FBigint MWarning = true /\ in_mark_cases FClass MNotSupportedYet = true
+  /\ Nat.ltb 200 (length feature_sites) = true.
 Proof. vm_compute. repeat split; reflexivity. Qed.
